@@ -10,6 +10,8 @@ if [ -d /verif/harness-sched ]; then
   [ -f Cargo.lock ] || cp /repo/Cargo.lock Cargo.lock
   cargo build --offline 2>&1 | tail -3
 fi
+# second build of the main crate: indicatif with the cargo feature improved_unicode (C14)
+( cd /verif/harness && cargo build --offline --features improved_unicode --target-dir /verif/target-uni 2>&1 | tail -1 )
 /verif/target/debug/vh selftest
 # coverage-guided targets (thorough tier); best effort here, ./check thorough rebuilds them anyway
 ( cd /verif/harness && cargo +nightly fuzz build --fuzz-dir /verif/fuzz -s none 2>&1 | tail -1 ) || echo "fuzz targets not built now (the thorough tier builds them)"
